@@ -7,7 +7,7 @@ from harness.props import c01
 
 INV = ['C02_Structure', 'C09_Conserves', 'OutcomeIsDiagnostic']
 ATTACH = ['', ' ', '\t', '\n', ' \n ', '  ', '\t\n', '\r', ' \r ']
-DETACH_TEXT = ['x', 'é', ' [b]', '\n[b', '\r\n', '\n\n', '.', '\n\n[', '.[b]', ' \n\n ', ']', '[', ' ', '\n \n']
+DETACH_TEXT = ['x', 'é', ' [b]', '\n[b', '\r\n', '\n', '\n\n', '.', '\n\n[', '.[b]', ' \n\n ', ']', '[', ' ', '\n \n']
 
 
 def args_of(expr, out):
